@@ -305,3 +305,86 @@ def sym_table(name, n, cols):
         a = sym_arr("%s_%s" % (name, c), n, kind, nan)
         out[c] = Series(n, a.f, kind, "%s.%s" % (name, c))
     return TableObj(name, n, out)
+
+
+class LabelTable:
+    """a DataFrame addressed by index labels through .at / .loc (the multi-energy controllers):
+    every column is a function label -> value.  `.at[idx, col]` needs a scalar label (list-likes
+    raise ValueError as pandas does), `.loc[idx, col]` returns / stores the values at a label
+    array (labels are unique: assumption A4 on pandas indices)."""
+
+    def __init__(self, name, cols):
+        self.name = name
+        self.cols = {}
+        for c in cols:
+            uf = z3.Function("%s_%s" % (name, c), z3.IntSort(), z3.RealSort())
+            self.cols[c] = (lambda x, _u=uf: _u(V.I(x)))
+        self.writes = []
+
+    def col0(self, c):
+        uf = z3.Function("%s_%s" % (self.name, c), z3.IntSort(), z3.RealSort())
+        return lambda x: uf(V.I(x))
+
+    def getattr_(self, ev, attr, lineno):
+        if attr == "at":
+            return _Accessor(self, "at")
+        if attr == "loc":
+            return _Accessor(self, "loc")
+        raise Unsupported("LabelTable attribute %s" % attr)
+
+
+class _Accessor:
+    def __init__(self, tbl, kind):
+        self.tbl = tbl
+        self.kind = kind
+
+    def _split(self, idx):
+        if not isinstance(idx, tuple) or len(idx) != 2 or not isinstance(idx[1], str):
+            raise Unsupported("table accessor index %r" % (idx,))
+        lab, col = idx
+        if col not in self.tbl.cols:
+            from .ev import _Raise, ExcVal
+            raise _Raise(ExcVal("KeyError", (col,)))
+        return lab, col
+
+    def getitem(self, ev, idx, lineno):
+        from .ev import _Raise, ExcVal
+        lab, col = self._split(idx)
+        f = self.tbl.cols[col]
+        if self.kind == "at":
+            if is_array(lab) or isinstance(lab, (list, tuple)):
+                raise _Raise(ExcVal("ValueError", ("Invalid call for scalar access (getting)!",)))
+            return f(lab)
+        if is_array(lab):
+            lf = lab.f
+            return Series(lab.n, lambda j: f(lf(j)), "f")
+        return f(lab)
+
+    def setitem(self, ev, idx, v, lineno):
+        from .ev import _Raise, ExcVal
+        lab, col = self._split(idx)
+        old = self.tbl.cols[col]
+        if self.kind == "at":
+            if is_array(lab) or isinstance(lab, (list, tuple)):
+                raise _Raise(ExcVal("ValueError", ("Invalid call for scalar access (setting)!",)))
+            if is_array(v):
+                raise _Raise(ExcVal("ValueError", ("setting an array element with a sequence",)))
+            self.tbl.cols[col] = (lambda x, _l=lab, _v=v, _o=old: ite(compare("==", x, _l), _v, _o(x)))
+            self.tbl.writes.append((col, lab))
+            return
+        if is_array(lab):
+            if is_array(v):
+                ev.same_len(lab.n, v.n, lineno)
+                inv = z3.Function("linv!%d" % next(V._counter), z3.IntSort(), z3.IntSort())
+                lf, vf = lab.f, v.f
+                jj = fresh("j")
+                hit = lambda x: member(lab, x)
+                ev.path.facts.append(z3.ForAll([jj], z3.Implies(
+                    z3.And(jj >= 0, B(compare("<", jj, lab.n))), inv(lf(jj)) == jj)))
+                self.tbl.cols[col] = (lambda x, _o=old: ite(hit(x), vf(inv(V.I(x))), _o(x)))
+            else:
+                hit = lambda x: member(lab, x)
+                self.tbl.cols[col] = (lambda x, _o=old, _v=v: ite(hit(x), _v, _o(x)))
+        else:
+            self.tbl.cols[col] = (lambda x, _l=lab, _v=v, _o=old: ite(compare("==", x, _l), _v, _o(x)))
+        self.tbl.writes.append((col, lab))
